@@ -287,6 +287,24 @@ def wait_set(m, pa, f, c, recv):
                 return ("hook", False)
             if _parent_is(m, pa, g, x, f, recv):
                 return ("beneath", False)
+            if x.q.endswith("Task::is_kind") and len(x.args) > 1 and pa.root(g, x.args[0])[:2] == ("param", 2):
+                kv = pa.root(g, x.args[1])
+                if kv[0] == "agg" and kv[2] == "Act":
+                    return ("act", False)
+                return None
+            if x.q.endswith("Option::<T>::is_some_and") and x.args:
+                # `newest_step.is_some_and(|s| s.id == t.id)` with newest_step = <steps directly beneath>.max_by_key(timestamp)
+                r_ = pa.root(g, x.args[0])
+                o_ = _upvar_outer(m, pa, g, r_) if r_[0] == "upvar" else (g, r_)
+                if o_ is not None:
+                    of_, rr_ = o_
+                    for _ in range(5):
+                        if rr_[0] == "call" and re.search(r"(as_ref|Deref>::deref|Clone>::clone|copied|cloned)$", rr_[1]):
+                            rr_ = pa.root(of_, Call(of_, rr_[2]).args[0])
+                            continue
+                        break
+                    if rr_[0] == "call" and re.search(r"Iterator(>)?::max_by_key(::<.*>)?$", rr_[1]):
+                        return ("newest", False)
             return None
         table = quant.closure_truth(m, g, classify)
         if table is None:
@@ -300,7 +318,18 @@ def wait_set(m, pa, f, c, recv):
             vals = quant.table_value(table, t)
             # may the write happen with such a task around?  forall: closure may be True; none-open: closure may be False
             return {(v if positive else (not v)) if v in (True, False) else "?" for v in vals}
-        return {"form": "forall" if positive else "none-open", "domain": domain, "done": done,
+        atoms_ = {n_ for asg, _ in table for n_ in asg} | {v_[1] for _, v_ in table if isinstance(v_, tuple)}
+        return {"form": "forall" if positive else "none-open", "domain": domain, "done": done, "atoms": atoms_,
                 "how": "%s over %s with predicate on %s" % ("`all`" if positive else "`any`/none", "children()" if domain == "children" else "the tasks of the process",
                                                           "/".join(sorted(preds)) or "?"), "quant": qn}
     return None
+
+
+def wait_combos(ws):
+    """assignments of the atoms `act` / `newest` (a workflow that tells the acts next to its steps and the newest step from the
+    step tasks a backward jump left behind) under which a task beneath the composite is one it waits for, and those under
+    which it is a step left behind; [{}] and [] when the test does not use these atoms"""
+    extra = ws["atoms"] & {"act", "newest"}
+    if not extra:
+        return [{}], []
+    return [{"act": True, "newest": False}, {"act": True, "newest": True}, {"act": False, "newest": True}], [{"act": False, "newest": False}]
